@@ -16,6 +16,8 @@
 """
 from __future__ import annotations
 
+from harness import REPO_SRC  # noqa: E402
+
 import json
 import multiprocessing
 import os
@@ -89,7 +91,7 @@ Emit == (fin /\\ WellBound) => PrintT(ToJson([doc |-> doc, info |-> [n \\in 1..L
 
 
 def _chunk(recs, data_opt):
-    sys.path.insert(0, "/repo/src")
+    sys.path.insert(0, REPO_SRC)
     from chameleon import PageTemplate
     viol = []
     n = 0
